@@ -379,6 +379,10 @@ SCRIPTS = {
     "sender": ["bind", "allocate", "claim", "open", "add", "add", "release", "add", "close"],
     "receiver": ["bind", "claim", "open", "add", "release", "add", "close"],
     "lazy": ["bind", "claim", "open", "add", "close"],               # never releases
+    # nobody releases and somebody looks at the list while the nameplate lives: the nameplate goes with
+    # the mailbox, at the last close
+    "sender2": ["bind", "allocate", "claim", "open", "list", "add", "close", "list"],
+    "receiver2": ["bind", "claim", "list", "open", "add", "close"],
     "norelease2": ["bind", "claim", "open", "close", "release"],      # odd order
     "intruder": ["bind", "claim", "claim", "claim!", "open", "claim!", "open!", "add"],   # "!" = on a fresh connection
     "standalone": ["bind", "open", "add", "add", "close"],
@@ -672,13 +676,13 @@ def run_scripted(rng, drv, profile, tid):
     slots = list(drv.conn_names)
     nclients = min(len(slots) - 1, rng.choice([2, 2, 3, 3, 4]))
     shared = dict(np=None, mbox=rng.choice(p["client_mbox"]))
-    roles = ["sender", rng.choice(["receiver", "receiver", "lazy", "norelease2"])] + \
+    roles = [rng.choice(["sender", "sender", "sender2"]), rng.choice(["receiver", "receiver", "lazy", "norelease2", "receiver2"])] + \
         [rng.choice(["intruder", "standalone", "lister", "receiver"]) for _ in range(nclients - 2)]
     sides = list(p["sides"])
     clients = []
     for k, role in enumerate(roles):
         side = sides[k % len(sides)] if role != "intruder" else sides[-1]
-        app = p["apps"][0] if (role in ("sender", "receiver", "lazy", "norelease2", "intruder") or len(p["apps"]) == 1) \
+        app = p["apps"][0] if (role in ("sender", "sender2", "receiver", "receiver2", "lazy", "norelease2", "intruder") or len(p["apps"]) == 1) \
             else rng.choice(p["apps"])
         clients.append(Client("k%d" % k, app, side, role, slots[k]))
     spare = slots[-1]
@@ -739,11 +743,11 @@ def run_scripted(rng, drv, profile, tid):
         for f in o["out"]:
             if f["type"] == "allocated":
                 cl.np = f["nameplate"]
-                if cl.role == "sender":
+                if cl.role in ("sender", "sender2"):
                     shared["np"] = f["nameplate"]
             if f["type"] == "claimed":
                 cl.mbox = f["mailbox"]
-                if cl.role in ("sender", "receiver", "lazy", "norelease2"):
+                if cl.role in ("sender", "sender2", "receiver", "receiver2", "lazy", "norelease2"):
                     shared["mbox_np"] = f["mailbox"]
 
     steps = 0
